@@ -25,7 +25,7 @@ ReqOK(e, es, s) ==
   /\ o.outcome = "error5xx" => q.store \in {"getFails", "newFails"}
   \* no token-verification API reports success for a token that does not contain an accepted AP-REQ
   /\ e.api.acceptPanic = "" /\ e.api.directPanic = ""
-  /\ e.api.accept => \E t \in {e.api.t0, e.api.t1} : CarriesAccepted(q, s, TFc(q.ap, e.apiconc, t), FALSE)
+  /\ e.api.accept => \E t \in {e.api.t0, e.api.t1} : CarriesAccepted(e.apiq, s, TFc(e.apiq.ap, e.apiconc, t), FALSE)
   /\ \A i \in 1..Len(e.api.direct) : ~e.api.direct[i]
 Est(e, es) == es \/ (e.obs.outcome = "served" /\ ~InSession(es, e.q) /\ Establishes(e.q))
 RECURSIVE Walk(_, _, _)
